@@ -27,13 +27,22 @@ import (
 	"github.com/oklog/ulid/v2"
 )
 
-const verifNowUnix = 1700000000
+// the current instant: fixed under the executor (time.Now is redirected to it),
+// the real clock natively
+var verifNowUnix = verifNowBase()
+
+func verifNowBase() int64 {
+	if verifNative() {
+		return time.Now().Unix()
+	}
+	return 1700000000
+}
 
 func verifStubNow() time.Time { return time.Unix(verifNowUnix, 0).UTC() }
 
 func verifPartID(ageSeconds int64, n byte) partstore.PartId {
 	var id ulid.ULID
-	ms := uint64(verifNowUnix-ageSeconds) * 1000
+	ms := uint64(verifNowUnix-ageSeconds) * 1000 // ULID time = creation instant
 	id[0], id[1], id[2], id[3], id[4], id[5] = byte(ms>>40), byte(ms>>32), byte(ms>>24), byte(ms>>16), byte(ms>>8), byte(ms)
 	id[15] = n
 	p, err := partstore.NewPartIdFromBytes(id[:])
